@@ -54,6 +54,17 @@ def r_expr(e):
     raise ValueError("expr kind " + k)
 
 
+def r_seq(stmts, ind):
+    """a statement list; a declaration marked `join` becomes a further declarator of the declaration before it (`let a = x, b = a + 1;`)"""
+    out = []
+    for x in stmts:
+        if x.get("join") and out and x["k"] in ("let", "const") and out[-1][0] == x["k"]:
+            out[-1] = (x["k"], out[-1][1][:-1] + ", %s = %s;" % (x["n"], r_expr(x["e"])))
+        else:
+            out.append((x["k"], r_stmt(x, ind)))
+    return "".join(t + "\n" for _, t in out)
+
+
 def r_stmt(s, ind=""):
     k = s["k"]
     if k == "expr":
@@ -85,7 +96,7 @@ def r_stmt(s, ind=""):
     if k == "break":
         return ind + "break;"
     if k == "block":
-        return ind + "{\n" + "".join(r_stmt(x, ind + "  ") + "\n" for x in s["b"]) + ind + "}"
+        return ind + "{\n" + r_seq(s["b"], ind + "  ") + ind + "}"
     if k == "if":
         t = "%sif (%s)\n%s" % (ind, r_expr(s["c"]), r_stmt(s["a"], ind + "  "))
         if s["b"]["k"] != "none":
@@ -97,7 +108,7 @@ def r_stmt(s, ind=""):
             clauses.insert(s["def"]["pos"], ("default:", s["def"]["body"]))
         t = "%sswitch (%s) {\n" % (ind, r_expr(s["v"]))
         for head, body in clauses:
-            t += ind + head + "\n" + "".join(r_stmt(x, ind + "  ") + "\n" for x in body)
+            t += ind + head + "\n" + r_seq(body, ind + "  ")
         return t + ind + "}"
     raise ValueError("stmt kind " + k)
 
